@@ -25,6 +25,71 @@ def _receiver_start(toks, dot_idx):
         raise LostAnchor('receiver of iterator chain is not a simple path')
 
 
+def _postfix_start(toks, match, dot_idx):
+    """walk back from the '.' at dot_idx over a postfix expression: paths `a::b`, fields `.f`, calls `f(..)`, method calls
+    `.m(..)`, indexing `a[..]`, a parenthesised expression; returns the index of its first token"""
+    inv = {v: k for k, v in match.items()}
+    j = dot_idx - 1
+    while j >= 0:
+        t = toks[j]
+        if t.text in (')', ']') and j in inv:
+            o = inv[j]
+            if o - 1 >= 0 and (toks[o - 1].kind == 'id' or toks[o - 1].text in (')', ']')):
+                j = o - 1
+                continue
+            if t.text == ')':
+                return o  # parenthesised expression
+            raise LostAnchor('receiver of method chain starts with an array literal')
+        if t.kind in ('id', 'num', 'str'):
+            if j - 1 >= 0 and toks[j - 1].text == '.':
+                j -= 2
+                continue
+            if j - 2 >= 0 and toks[j - 1].text == ':' and toks[j - 2].text == ':':
+                j -= 3
+                continue
+            return j
+        raise LostAnchor('receiver of method chain is not a postfix expression')
+    raise LostAnchor('receiver of method chain not found')
+
+
+def r26_map_or_match(u, key, text):
+    """R26: RECV.map_or(D, |p| BODY)  ->  match RECV { Some(p) => BODY, None => D }   where D is a literal or a path
+    (so that evaluating it lazily instead of eagerly is unobservable).  Wanted because Verus rejects closures that
+    capture `&mut`; the match arm has the same captures without a closure."""
+    while True:
+        toks = tokenize(text)
+        match = match_brackets(toks)
+        site = None
+        for i, t in enumerate(toks):
+            if t.text == '.' and _seq(toks, i, ['.', 'map_or', '(']):
+                mopen = i + 2
+                # first argument: tokens up to the top-level comma
+                k = mopen + 1
+                while k < match[mopen] and toks[k].text != ',':
+                    if toks[k].text in ('(', '[', '{'):
+                        k = match[k]
+                    k += 1
+                dflt = toks[mopen + 1:k]
+                if k < match[mopen] and toks[k + 1].text == '|' and dflt and all(d.kind in ('id', 'num', 'str') or d.text == ':' for d in dflt):
+                    site = (i, mopen, k)
+                    break
+        if site is None:
+            return text
+        i, mopen, k = site
+        rs = _postfix_start(toks, match, i)
+        recv = text[toks[rs].start:toks[i].start].strip()
+        d = text[toks[mopen + 1].start:toks[k].start].strip()
+        j = k + 2
+        while toks[j].text != '|':
+            j += 1
+        param = text[toks[k + 1].end:toks[j].start].strip()
+        mclose = match[mopen]
+        body = text[toks[j].end:toks[mclose].start].strip().rstrip(',').strip()
+        new = 'match %s { Some(%s) => %s, None => %s }' % (recv, param, _as_block(body), d)
+        text = text[:toks[rs].start] + new + text[toks[mclose].end:]
+        u.rules['R26'] += 1
+
+
 def _closure(text, toks, match, open_paren):
     """closure directly inside call parens at open_paren: returns (param_text, body_text)"""
     i = open_paren + 1
